@@ -70,14 +70,20 @@ const char* BZ2_bzerror(BZFILE*, int* errnum) { *errnum = 0; return "model"; }
 
 // ---- in-memory interfaces: the same abstract streams; the position in the input is next_in relative to the start of the buffer
 static const char* g_membuf; static unsigned g_mem_produced; static int g_mem_done;
-static int mem_decode(const char** next_in, unsigned* avail_in, char** next_out, unsigned* avail_out, int end_code, int ok_code, int eof_code) {
+// stall_code: what the library returns when it is called with no input left in the middle of a stream and cannot make progress
+// (libbz2: BZ_OK -- it just waits for more input; zlib: Z_BUF_ERROR).  A call that still consumes input returns ok_code in both libraries.
+static int mem_decode(const char** next_in, unsigned* avail_in, char** next_out, unsigned* avail_out, int end_code, int ok_code, int eof_code, int stall_code) {
     if (g_mem_done) return eof_code;                         // calling again after the end of a stream without re-initialising is a sequence error
     for (unsigned guard = 0; guard < 64; ++guard) {
         const unsigned abs = static_cast<unsigned>(*next_in - g_membuf);
         unsigned start; const unsigned s = stream_at(abs, &start);
         if (s >= g_nstreams) return eof_code;
         const unsigned need = start + g_csize[s] - abs;
-        if (*avail_in < need) { *next_in += *avail_in; *avail_in = 0; return eof_code; }       // input ends inside a stream
+        if (*avail_in < need) {                              // input ends inside a stream: everything is consumed, nothing (more) can be produced
+            const bool progress = *avail_in > 0;
+            *next_in += *avail_in; *avail_in = 0;
+            return progress ? ok_code : stall_code;
+        }
         const unsigned left = g_psize[s] - g_mem_produced; const unsigned n = left < *avail_out ? left : *avail_out;
         std::memset(*next_out, 'a' + static_cast<int>(s), n); *next_out += n; *avail_out -= n; g_mem_produced += n;
         if (g_mem_produced == g_psize[s]) { *next_in += need; *avail_in -= need; g_mem_produced = 0; g_mem_done = 1; return end_code; }
@@ -88,7 +94,7 @@ static int mem_decode(const char** next_in, unsigned* avail_in, char** next_out,
 int BZ2_bzDecompressInit(bz_stream*, int, int) { g_mem_done = 0; g_mem_produced = 0; return BZ_OK; }
 int BZ2_bzDecompressEnd(bz_stream*) { return BZ_OK; }
 int BZ2_bzDecompress(bz_stream* st) {
-    const char* in = st->next_in; const int r = mem_decode(&in, &st->avail_in, &st->next_out, &st->avail_out, BZ_STREAM_END, BZ_OK, BZ_DATA_ERROR);
+    const char* in = st->next_in; const int r = mem_decode(&in, &st->avail_in, &st->next_out, &st->avail_out, BZ_STREAM_END, BZ_OK, BZ_DATA_ERROR, BZ_OK);
     st->next_in = const_cast<char*>(in); return r;
 }
 int inflateInit2_(z_streamp, int, const char*, int) { g_mem_done = 0; g_mem_produced = 0; return Z_OK; }
@@ -96,7 +102,7 @@ int inflateEnd(z_streamp) { return Z_OK; }
 int inflateReset(z_streamp) { g_mem_done = 0; g_mem_produced = 0; return Z_OK; }
 int inflate(z_streamp st, int) {
     const char* in = reinterpret_cast<const char*>(st->next_in); char* out = reinterpret_cast<char*>(st->next_out);
-    const int r = mem_decode(&in, &st->avail_in, &out, &st->avail_out, Z_STREAM_END, Z_OK, Z_BUF_ERROR);
+    const int r = mem_decode(&in, &st->avail_in, &out, &st->avail_out, Z_STREAM_END, Z_OK, Z_BUF_ERROR, Z_BUF_ERROR);
     st->next_in = reinterpret_cast<unsigned char*>(const_cast<char*>(in)); st->next_out = reinterpret_cast<unsigned char*>(out); return r;
 }
 }
